@@ -108,7 +108,10 @@ def worker(job):
             maxd = rng.choice([None, None, None, 0, 1, 2])
             if maxd is not None and mind > maxd:
                 maxd = None
-            tail = (["-follow"] if mode == "follow" else []) + (["-mindepth", str(mind)] if mind or rng.random() < 0.1 else []) \
+            xdev = [rng.choice(["-xdev", "-mount"])] if rng.random() < 0.15 else []        # (one file system here: changes nothing)
+            if xdev:
+                st.inc("runs_with_xdev")
+            tail = xdev + (["-follow"] if mode == "follow" else []) + (["-mindepth", str(mind)] if mind or rng.random() < 0.1 else []) \
                 + (["-maxdepth", str(maxd)] if maxd is not None else []) + (["-sorted"] if sorted_ else []) + ["-print0"]
             rmode = "L" if mode == "follow" else mode
             st.inc("follow:" + mode)
